@@ -217,6 +217,13 @@ fn c02_oracle(m: &MLib, ctx: &mut Ctx) -> Result<(), String> {
         ctx.refused("write refused");
         return Ok(());
     }
+    // writing is a function of the library: a second call on the same value gives the same bytes
+    {
+        let mut again = Vec::new();
+        if lib.write(&mut again).is_err() || again != bytes {
+            return Err(format!("write() called twice on one library gave two results ({} and {} bytes)", bytes.len(), again.len()));
+        }
+    }
     classify(m, ctx);
     if m.nontrivial() {
         ctx.nontrivial(hash_of(m));
